@@ -289,6 +289,11 @@ def _mentions_verbose(test):
 # ---------------------------------------------------------------------------------------------------
 def r_evalshape(ctx):
     repo = ctx.repo
+    from . import leafprog
+    try:
+        leafprog.r_expression_eval_program(ctx)
+    except AnalysisError as ex:
+        ctx.notes.append("R-EVALSHAPE: %s -- only the shape rules apply" % ex)
     # Point.eval
     fn = repo.method("Point", "eval")
     ctx.unit("Point.eval")
